@@ -1,0 +1,58 @@
+package chat
+
+import (
+	"errors"
+
+	"github.com/Tnze/go-mc/nbt"
+)
+
+// maxNestingDepth is how deep text components may be nested in the NBT form (a component in the
+// extra, the with or the hover text of another one). Vanilla refuses NBT nested deeper than 512.
+const maxNestingDepth = 512
+
+var errNestingDepth = errors.New("chat: text component nested too deep")
+
+// nested is the input of the decoder that UnmarshalNBT creates for one component: the tag type the
+// caller has consumed already, followed by the caller's input. It counts how many of these decoders
+// are stacked. Every nested component starts a new nbt.Decoder whose own depth limit starts from
+// zero, every level costs stack frames, and a goroutine that exhausts its stack cannot be recovered.
+type nested struct {
+	tag   byte
+	fresh bool // the tag type has not been handed out yet
+	r     nbt.DecoderReader
+	depth int
+}
+
+func nestedReader(tagType byte, r nbt.DecoderReader) *nested {
+	depth := 0
+	if p, ok := r.(*nested); ok { // called by the decoder of an enclosing component
+		depth = p.depth + 1
+		if !p.fresh {
+			r = p.r // read the input itself, not through one wrapper per level
+		}
+	}
+	return &nested{tag: tagType, fresh: true, r: r, depth: depth}
+}
+
+func (n *nested) ReadByte() (byte, error) {
+	if n.depth > maxNestingDepth {
+		return 0, errNestingDepth
+	}
+	if n.fresh {
+		n.fresh = false
+		return n.tag, nil
+	}
+	return n.r.ReadByte()
+}
+
+func (n *nested) Read(p []byte) (int, error) {
+	if n.depth > maxNestingDepth {
+		return 0, errNestingDepth
+	}
+	if n.fresh && len(p) > 0 {
+		n.fresh = false
+		p[0] = n.tag
+		return 1, nil
+	}
+	return n.r.Read(p)
+}
